@@ -318,6 +318,67 @@ func (c *c07) op(kind string, x, y uint64) bool {
 	return err == nil
 }
 
+// reimport: the gov state goes through its own ExportGenesis / InitGenesis (World.ReimportGovInPlace) - the "by genesis
+// import" clause of the property. The model replays the import as coded (PermGenesis). Oracle: no account's answer to
+// "does it hold permission p" changes across the import; a change explained by a blacklist of an assigned role is the
+// recorded finding of C12 (role blacklists are not imported), anything else is reported here.
+func (c *c07) reimport(nAcc int, roles []uint64, perms []uint32, tag string) {
+	type ap struct {
+		a int
+		p uint32
+	}
+	pre := map[ap]bool{}
+	roleBl := map[ap]bool{}
+	for i := 0; i < nAcc; i++ {
+		a, hasActor := c.k.GetNetworkActorByAddress(c.ctx, c.w.addrs[i])
+		for _, p := range perms {
+			pre[ap{i, p}] = govkeeper.CheckIfAllowedPermission(c.ctx, c.k, c.w.addrs[i], govtypes.PermValue(p))
+			if hasActor {
+				for _, ro := range a.Roles {
+					if ps, ok := c.k.GetPermissionsForRole(c.ctx, ro); ok && ps.IsBlacklisted(govtypes.PermValue(p)) {
+						roleBl[ap{i, p}] = true
+					}
+				}
+			}
+		}
+	}
+	failed := c.w.ReimportGovInPlace(c.ctx)
+	out := "ok"
+	if failed != nil {
+		out = "panic"
+	}
+	var accs []string
+	for i := 0; i <= nAcc; i++ {
+		accs = append(accs, fmt.Sprint(i))
+	}
+	var rs []string
+	for _, ro := range roles {
+		rs = append(rs, fmt.Sprint(ro))
+	}
+	c.r.Op(fmt.Sprintf("perm reimport %s %s", strings.Join(accs, ","), strings.Join(rs, ",")), out)
+	c.r.Count("reimport:" + out)
+	if failed != nil {
+		c.r.Fail("C07/genesis-import/panic", fmt.Sprintf("%s: gov InitGenesis of the exported state failed: %v", tag, failed), nil)
+		return
+	}
+	for i := 0; i < nAcc; i++ {
+		for _, p := range perms {
+			post := govkeeper.CheckIfAllowedPermission(c.ctx, c.k, c.w.addrs[i], govtypes.PermValue(p))
+			c.r.Count("oracle:C07/genesis-import")
+			if post == pre[ap{i, p}] {
+				continue
+			}
+			what := fmt.Sprintf("%s: account %d holds permission %d before export = %v, after import = %v", tag, i, p, pre[ap{i, p}], post)
+			if roleBl[ap{i, p}] && post {
+				c.r.Known("C12/perm/role-blacklists-not-imported", what)
+			} else {
+				c.r.Fail("C07/genesis-import/permission-changed", what, nil)
+			}
+		}
+	}
+	c.observe(nAcc, roles, perms, tag+" (after import)")
+}
+
 func (c *c07) observe(nAcc int, roles []uint64, perms []uint32, tag string) {
 	for i := 0; i < nAcc; i++ {
 		c.r.Op(fmt.Sprintf("perm actor %d", i), c.actorLine(i))
@@ -419,6 +480,9 @@ func runC07(r *Rec) {
 			ok = c.op(kind, uint64(1+r.Rng.Intn(len(roles)+1)), p)
 		}
 		r.Case(fmt.Sprintf("hist/%d/%s/%v", i, kind, ok), ok)
+		if r.Rng.Intn(35) == 0 {
+			c.reimport(nAcc, roles, perms, fmt.Sprintf("history step %d", i))
+		}
 		if i%5 == 4 || r.Tier == "thorough" && i%3 == 0 {
 			c.observe(nAcc, roles, perms, fmt.Sprintf("history step %d", i))
 		}
